@@ -464,7 +464,7 @@ def run(ctx):
     # delimiter permutations with empty parts / whitespace
     structured = []
     for sch in ("", "http:", "foo:", "HTTP:", "1a:", "a+b-c.d:", ":", "é:"):
-        for au in ("", "//", "//h", "//@h", "//:@h", "//u@", "//u:@h:", "//h:80", "//h:080", "//[::1]", "//[::1]:1", "//u:p@[v1.x]:0", "//x[::1]", "//[::1]x:1", "//h:+1", "//h:1_0", "//h: 1", "//h:65536",
+        for au in ("", "//", "//h", "//@h", "//:@h", "//u@", "//u:@h:", "//h:80", "//h:080", "//h:000080", "//h:0000000", "//u:p@[::1]:00000000000443", "//h:065536", "//[::1]", "//[::1]:1", "//u:p@[v1.x]:0", "//x[::1]", "//[::1]x:1", "//h:+1", "//h:1_0", "//h: 1", "//h:65536",
                    # brackets that belong to the USERINFO (before the last '@'), host plain or bracketed
                    "//[::1]@h:80", "//u[v1.x]:pw@h.example:81", "//x:[::]@h", "//[a:b]@h", "//[::1]@[::2]:1", "//[::1]:p@h", "//u@[::1]@h:9",
                    # more than one '@': the split is at the LAST one, the password starts at the first ':' of everything before it
